@@ -142,6 +142,8 @@ void Variable::removeAllEquivalences()
         }
     }
     pFunc()->mEquivalentVariables.clear();
+    pFunc()->mMappingIdMap.clear();
+    pFunc()->mConnectionIdMap.clear();
 }
 
 VariablePtr Variable::equivalentVariable(size_t index) const
@@ -253,6 +255,9 @@ bool Variable::VariableImpl::setEquivalentTo(const VariablePtr &equivalentVariab
     if (!hasEquivalentVariable(equivalentVariable)) {
         VariableWeakPtr weakEquivalentVariable = equivalentVariable;
         mEquivalentVariables.push_back(weakEquivalentVariable);
+        // A new equivalence starts without identifiers.
+        mMappingIdMap.erase(weakEquivalentVariable);
+        mConnectionIdMap.erase(weakEquivalentVariable);
         return true;
     }
 
